@@ -771,7 +771,8 @@ class Bag:
     def __init__(self, name, cap=5):
         self.name = name
         self.cap = cap
-        self.findings = []
+        self._kept = {}
+        self._seq = 0
         self.per_key = {}
         self.evaluations = 0
         self.distinct = set()
@@ -789,18 +790,34 @@ class Bag:
         if len(self.samples) < limit:
             self.samples.append(s)
 
-    def full(self, key):
-        return self.per_key.get(key, 0) >= self.cap
+    @property
+    def findings(self):
+        return self._materialise()
 
     def add(self, key, what, body, data=None):
-        """body: script body (string) or a zero-argument callable producing it (only called if kept)."""
+        """body: script body (string) or a zero-argument callable producing it (materialised only for the
+        findings that are kept).  Per key the `cap` findings with the shortest description are kept, so the
+        report shows the smallest failing inputs regardless of the enumeration order."""
         n = self.per_key.get(key, 0)
         self.per_key[key] = n + 1
-        if n >= self.cap:
+        kept = self._kept.setdefault(key, [])
+        item = (len(what), self._seq, what, body, data or {})
+        self._seq += 1
+        if len(kept) < self.cap:
+            kept.append(item)
             return
-        if callable(body):
-            body = body()
-        self.findings.append(Finding(key=key, what=what[:2000], script=script(body), data=data or {}))
+        worst = max(range(len(kept)), key=lambda i: kept[i][:2])
+        if item[:2] < kept[worst][:2]:
+            kept[worst] = item
+
+    def _materialise(self):
+        out = []
+        for key in sorted(self._kept, key=lambda k: min(i[1] for i in self._kept[k])):
+            for size, seq, what, body, data in sorted(self._kept[key], key=lambda i: i[:2]):
+                if callable(body):
+                    body = body()
+                out.append(Finding(key=key, what=what[:2000], script=script(body), data=data))
+        return out
 
     def elapsed(self):
         return time.time() - self.t0
@@ -810,7 +827,7 @@ class Bag:
         allnotes = ' | '.join(x for x in [notes, *self.notes, extra] if x)
         return BoundedReport(name=self.name, evaluations=self.evaluations, distinct_nontrivial=len(self.distinct),
                              rule=rule, scope=scope, exhaustive=exhaustive, samples=self.samples,
-                             findings=self.findings, notes=allnotes)
+                             findings=self._materialise(), notes=allnotes)
 
 
 def guard(fn, *a, **k):
@@ -974,3 +991,125 @@ def ref_repr(n, nil, ns):
     if body is None:
         return None
     return 'PyTreeSpec(' + body + (', NoneIsLeaf' if nil else '') + (f', namespace={ns!r}' if ns else '') + ')'
+
+
+LEAF = ('leaf',)
+T2 = ('tuple', [LEAF, LEAF])
+T3 = ('tuple', [LEAF, LEAF, LEAF])
+
+# ------------------------------------------------------------------------------------------------
+# pair generators shared by C07 / C09
+
+SUBS = [T2, ('list', [LEAF]), ('dictR', [LEAF, T2]), ('none',), ('e_tuple',), ('customE', [LEAF]), ('odictR', [LEAF, LEAF]),
+        ('dequeM', [LEAF]), ('nt', [LEAF, LEAF])]
+
+
+def suffixes(d, subs, rng, per_leaf=None):
+    """True suffixes of d: one leaf replaced by each sub, all leaves replaced by one sub, mixed."""
+    n = n_leaf_atoms(d)
+    yield d
+    for i in range(n):
+        for s in (subs if per_leaf is None else rng.sample(subs, per_leaf)):
+            yield substitute_leaves(d, [None] * i + [s])
+    if n >= 2:
+        for s in subs[:4]:
+            yield substitute_leaves(d, [s] * n)
+        yield substitute_leaves(d, [subs[(i * 2) % len(subs)] for i in range(n)])
+
+
+def equivalents(d):
+    """Same tree up to the equivalence of C07: other dict kind / key order / deque maxlen at every such node."""
+    swap = {'dictR': 'odictF', 'odictR': 'ddictF', 'ddictR': 'dictF', 'dictF': 'odictR', 'odictF': 'dictR', 'ddictF': 'odictR'}
+
+    def rec(x):
+        if len(x) == 1:
+            return x
+        ch = [rec(c) for c in x[1]]
+        if x[0] in swap:
+            return (swap[x[0]], ch[::-1])
+        if x[0] == 'deque':
+            return ('dequeM', ch)
+        if x[0] == 'dequeM':
+            return ('dequeM9', ch)
+        return (x[0], ch)
+    return rec(d)
+
+
+def nested_dict_pairs(nkeys, rng, limit):
+    """Two-level dict trees: every outer kind / key order x inner kind / key order x unequal subtree sizes."""
+    inner_p = [LEAF,
+               keyed('odict', 'pq', [LEAF, LEAF]), keyed('odict', 'qp', [LEAF, LEAF]), keyed('dict', 'pq', [LEAF, LEAF])]
+    inner_f = [LEAF, T2,
+               keyed('odict', 'pq', [LEAF, T2]), keyed('odict', 'qp', [T2, LEAF]), keyed('odict', 'qp', [LEAF, T3]),
+               keyed('dict', 'qp', [T2, LEAF]), keyed('ddict', 'qp', [LEAF, LEAF])]
+    keys = 'xyz'[:nkeys]
+    ps, fs = [], []
+    for kind in ('odict', 'dict'):
+        for perm in itertools.permutations(keys):
+            for vals in itertools.product(inner_p, repeat=nkeys):
+                if kind == 'dict' and perm != tuple(keys):
+                    continue
+                ps.append(keyed(kind, perm, list(vals)))
+    for kind in ('odict', 'ddict'):
+        for perm in itertools.permutations(keys):
+            for vals in itertools.product(inner_f, repeat=nkeys):
+                if kind == 'ddict' and perm != tuple(keys)[::-1]:
+                    continue
+                fs.append(keyed(kind, perm, list(vals)))
+    pairs = [(p, f) for p in ps for f in fs]
+    return thin(pairs, limit, rng)
+
+
+def random_nested(rng, depth):
+    """Random nested-dict prefix tree and a related full tree: keys permuted at every level, dict kinds changed,
+    leaves replaced by subtrees of different sizes; with probability 1/4 one extra mutation (near-miss)."""
+    kinds = ['odict', 'dict', 'ddict']
+
+    def gen(dep):
+        if dep == 0 or rng.random() < 0.3:
+            return LEAF
+        n = rng.choice([2, 2, 3])
+        keys = rng.sample(['k', 'l', 'm', 'n'], n)
+        return keyed(rng.choice(kinds[:2]), keys, [gen(dep - 1) for _ in range(n)])
+
+    def derive(x):
+        if len(x) == 1:
+            return rng.choice([LEAF, LEAF, T2, T3, ('list', [LEAF]), keyed('odict', 'ba', [LEAF, T2])])
+        kind, keys = x[0]
+        idx = list(range(len(keys)))
+        rng.shuffle(idx)
+        return keyed(rng.choice(kinds), [keys[i] for i in idx], [derive(x[1][i]) for i in idx])
+    p = gen(depth)
+    if len(p) == 1:
+        p = keyed('odict', 'lk', [LEAF, gen(depth - 1)])
+    f = derive(p)
+    if rng.random() < 0.25:
+        ms = list(mutants(f))
+        f = rng.choice(ms)
+    return p, f
+
+
+HET = [1, 'a', 2j, None, (0,), S.UK[0], S.UK[1], 2.5, b'x']
+
+
+def hetero_pairs(maxsize, rng, limit):
+    subsets = [c for r in range(1, maxsize + 1) for c in itertools.combinations(HET, r)]
+    out = []
+    for a in subsets:
+        for b in subsets:
+            for pk, fk in (('dict', 'dict'), ('odict', 'ddict')):
+                vals = [LEAF if i % 2 == 0 else T2 for i in range(len(b))]
+                out.append((keyed(pk, a, [LEAF] * len(a)), keyed(fk, b[::-1], vals[::-1])))
+    return thin(out, limit, rng)
+
+
+def equiv_sig(n):
+    """Signature up to the C07 equivalence (dict kind, key order, default factory, deque maxlen)."""
+    if n.kind in ('leaf', 'none'):
+        return n.kind
+    ch = [equiv_sig(c) for c in n.children]
+    if n.kind in DICT_KINDS:
+        return ('D', frozenset(zip(n.keys, ch)))
+    if n.kind == 'deque':
+        return ('deque', tuple(ch))
+    return (n.kind, n.typ, _meta_sig(n.meta), tuple(ch))
